@@ -933,6 +933,57 @@ example :
       = (10, 24, 31/4, 31/10, [2, 12]) := by
   decide +kernel
 
+/-- `s_var` is `var()` over all sub-domains (both code paths; on the volume-weighted path under the hypotheses that
+    make `s_mean = mean()`) -/
+theorem scalar_var [Field K] [DecidableEq K] (nsq : K → K) (f g : Fld K) (v V : K) (o : Idx)
+    (hreal : f.dt ≠ DT.complex → ∀ z, nsq z = z * z)
+    (hv : sVar nsq f = .ok v) (hg : var nsq f .none = .ok g)
+    (hV : totalVolume f.subs .none = .ok V) (hvc : ∀ s ∈ f.subs, VolConsistent s) (hV0 : V ≠ 0) :
+    g.val o = v := by
+  have hmask : maskOf f.subs.length (List.range f.subs.length) = List.replicate f.sizes.length true := by
+    rw [maskOf_range]; simp [Fld.sizes]
+  unfold sVar at hv
+  cases hsw : scalarWeight f.subs .none with
+  | error e => simp only [hsw] at hv; cases hv
+  | ok r =>
+    cases r with
+    | some swgt =>
+      simp only [hsw, Except.ok.injEq] at hv
+      unfold var at hg
+      simp only [hsw, parseSpaces, Except.ok.injEq] at hg
+      subst hg; subst hv
+      simp only [contractFld, npVar, npMean, hmask, contract_all]
+    | none =>
+      simp only [hsw] at hv
+      cases hm1 : sMean f with
+      | error e => simp only [hm1] at hv; cases hv
+      | ok m1 =>
+        simp only [hm1] at hv
+        obtain ⟨m, l, d, g', hm, hp, hsq, hgg⟩ := var_eq_mean_sq_dev nsq f g .none hreal hg
+        simp only [parseSpaces, Except.ok.injEq] at hp
+        subst hp
+        have hmv : ∀ i, m.val (sel false (maskOf f.subs.length (List.range f.subs.length)) i) = m1 := by
+          intro i
+          exact (scalar_variants f _).2.2 m1 m V hm1 hm hV hvc hV0
+        rw [hgg o]
+        -- the squared-deviation field of `var` equals the one of `s_var` up to the dtype tag
+        have hval : (fun i => nsq (f.val i - m.val (sel false (maskOf f.subs.length (List.range f.subs.length)) i)))
+            = (fun i => nsq (f.val i - m1)) := by funext i; rw [hmv i]
+        rw [hval] at hsq
+        have hsm : sMean ({ f with dt := d, val := fun i => nsq (f.val i - m1) } : Fld K) = .ok v := by
+          by_cases hc : f.dt = DT.complex
+          · simp only [hc, if_true] at hv
+            exact sMean_dt _ d v hv
+          · simp only [hc, if_false] at hv
+            have := sMean_dt _ d v hv
+            simpa [hreal hc] using this
+        exact (scalar_variants _ o).2.2 v g' V hsm hsq hV hvc hV0
+
+
+example :
+    let f : Fld Rat := ⟨0, [⟨[2], .vector #[1/2, 2], none⟩], DT.float, fun i => if i.headD 0 = 0 then 3 else 5⟩
+    (match sVar (fun z => z * z) f with | .ok v => v | .error _ => 0) = 16/25 := by decide +kernel
+
 /-! ### the theorems apply to what the driver executes
   `CRat` (exact complex rationals) with the core instances of Model/Field.lean is a field (Lemmas/FieldCRat.lean) and
   `CRat.conj` a ring involution; below the Mathlib instance is switched off, so `weight`, `integrate`, … are
